@@ -405,6 +405,10 @@ func replayHist(env *Env, prop string) bool {
 				break
 			}
 		}
+		if prop == "C08" && len(c) == 1 && c[0] == "stall" {
+			env.Emit("C08 stall", c08Stall())
+			continue
+		}
 		env.Emit(prop+" "+strings.Join(c, " "), runHist(c))
 	}
 	return true
